@@ -510,6 +510,7 @@ func checkColl3(c coll3Case, o *kit.Obs) error {
 		}
 		var hits, borderline, prunable int
 		var err error
+		droppedBorderline = 0
 		switch q.Kind {
 		case "ray":
 			hits, borderline, prunable, err = rayQuery3(ix, tris, ptrIdx, boxMin, boxMax, q, strict)
@@ -564,7 +565,41 @@ func checkColl3(c coll3Case, o *kit.Obs) error {
 			o.Label(q.Kind + ":multi-hit")
 		}
 		if borderline > 0 {
-			o.Label(q.Kind + ":borderline-leaf")
+			o.Label(q.Kind + ":borderline-leaf:" + reg)
+		}
+		if droppedBorderline > 0 {
+			o.Label(q.Kind + ":borderline-hit-skipped-by-index")
+		}
+		if q.Kind == "ray" || q.Kind == "segment" {
+			zero, face := false, false
+			for k := 0; k < 3; k++ {
+				dk := q.B[k]
+				if q.Kind == "segment" {
+					dk = q.B[k] - q.A[k]
+				}
+				if dk == 0 {
+					zero = true
+				}
+				for _, i := range ix.objs {
+					if q.A[k] == boxMin[i][k] || q.A[k] == boxMax[i][k] {
+						face = true
+					}
+				}
+			}
+			if zero {
+				o.Label(q.Kind + ":zero-direction-component")
+			}
+			if face {
+				o.Label(q.Kind + ":origin-on-box-face-plane")
+			}
+		}
+		if q.Kind == "sphere" || q.Kind == "circle" {
+			for _, i := range ix.objs {
+				if boxDist2(q.A[:], boxMin[i], boxMax[i]) == q.R*q.R {
+					o.Label(q.Kind + ":radius-equals-box-distance")
+					break
+				}
+			}
 		}
 		if ix.counter != nil {
 			// measured: the hierarchy evaluated fewer leaf primitives than a scan would
@@ -705,6 +740,9 @@ func sphereQuery3(ix *index3, tris []*model3d.Triangle, boxMin, boxMax [][]float
 	if got && !anyAll {
 		return 0, 0, 0, fmt.Errorf("SphereCollision(%v, %v) is true but no triangle touches the ball", q.A, q.R)
 	}
+	if anyAll && !got {
+		droppedBorderline++
+	}
 	if !got && anyMust {
 		return 0, 0, 0, fmt.Errorf("SphereCollision(%v, %v) is false but %d triangle(s) touch the ball", q.A, q.R, nhits)
 	}
@@ -741,6 +779,9 @@ func multiQuery3(ix *index3, tris []*model3d.Triangle, boxMin, boxMax [][]float6
 		if got && !anyAll {
 			return 0, 0, 0, fmt.Errorf("SegmentCollision(%v - %v) is true but no triangle meets the segment", q.A, q.B)
 		}
+		if anyAll && !got {
+			droppedBorderline++
+		}
 		if !got && anyMust {
 			return 0, 0, 0, fmt.Errorf("SegmentCollision(%v - %v) is false but %d triangle(s) meet the segment", q.A, q.B, nhits)
 		}
@@ -765,6 +806,9 @@ func multiQuery3(ix *index3, tris []*model3d.Triangle, boxMin, boxMax [][]float6
 		got := ix.multi.RectCollision(rect)
 		if got && !anyAll {
 			return 0, 0, 0, fmt.Errorf("RectCollision(%v .. %v) is true but no triangle meets the box", q.A, q.B)
+		}
+		if anyAll && !got {
+			droppedBorderline++
 		}
 		if !got && anyMust {
 			return 0, 0, 0, fmt.Errorf("RectCollision(%v .. %v) is false but %d triangle(s) meet the box", q.A, q.B, nhits)
